@@ -344,6 +344,17 @@ pub async fn step_api(w: &mut World, op: Tok, c: &mut Cur<'_>, start: SystemTime
                                 o.push(m.data_type as Tok);
                                 o.push(m.entry_type as Tok);
                                 enc_restriction_v1(&mut o, &m.value_restriction);
+                                // description / unit: as registered when the request names them (all metadata, or
+                                // the unit + description fields), absent otherwise
+                                let named = mask & (4 | 64) != 0 || view == 3 || view == 20;
+                                match w.reg.get(&(id as i32)) {
+                                    Some((d, u)) => {
+                                        let (wd, wu) = if named { (Some(d.clone()), u.clone()) } else { (None, None) };
+                                        o.push((m.description == wd) as Tok);
+                                        o.push((m.unit == wu) as Tok);
+                                    }
+                                    None => o.extend([1, 1]),
+                                }
                             }
                             None => o.push(0),
                         }
@@ -482,6 +493,14 @@ pub async fn step_api(w: &mut World, op: Tok, c: &mut Cur<'_>, start: SystemTime
                         enc_opt_val(&mut o, from_v2_value(&m.min));
                         enc_opt_val(&mut o, from_v2_value(&m.max));
                         enc_opt_val(&mut o, from_v2_value(&m.allowed_values));
+                        // description / unit as registered? (v2 reports an absent unit as the empty string)
+                        match w.reg.get(&m.id) {
+                            Some((d, u)) => {
+                                o.push((m.description == *d) as Tok);
+                                o.push((m.unit == u.clone().unwrap_or_default()) as Tok);
+                            }
+                            None => o.extend([1, 1]),
+                        }
                         out.push(o);
                     }
                     out
@@ -583,9 +602,9 @@ pub async fn step_api(w: &mut World, op: Tok, c: &mut Cur<'_>, start: SystemTime
                 let (Some(name), Some(dt), Some(ct)) = (c.string(), c.next(), c.next()) else { return bad };
                 names.push(name.clone());
                 list.push(ps::RegistrationMetadata {
+                    description: crate::fam_hist::reg_texts(&name).0,
                     name,
                     data_type: dt as i32,
-                    description: "d".into(),
                     change_type: ct as i32,
                 });
             }
@@ -595,6 +614,10 @@ pub async fn step_api(w: &mut World, op: Tok, c: &mut Cur<'_>, start: SystemTime
                 let id = block_id(w, nme).await;
                 if id >= 0 && !w.ids.contains(&(id as i32)) {
                     w.ids.push(id as i32);
+                }
+                if id >= 0 {
+                    // registered through sdv: that description, no unit (an existing signal keeps its texts)
+                    w.reg.entry(id as i32).or_insert((crate::fam_hist::reg_texts(nme).0, None));
                 }
             }
             match r {
@@ -629,6 +652,11 @@ pub async fn step_api(w: &mut World, op: Tok, c: &mut Cur<'_>, start: SystemTime
                         enc_opt_val(&mut o, sdv_restriction(&m.min));
                         enc_opt_val(&mut o, sdv_restriction(&m.max));
                         enc_opt_val(&mut o, sdv_allowed(&m.allowed));
+                        // description as registered? (sdv metadata has no unit)
+                        o.push(match w.reg.get(&m.id) {
+                            Some((d, _)) => (m.description == *d) as Tok,
+                            None => 1,
+                        });
                         out.push(o);
                     }
                     out
